@@ -1,6 +1,21 @@
 """Sidecar contracts on the real gemseo functions, one module per property (DESIGN.md §4)."""
 
 PROPS = {
+    "C07": {
+        "level_text": "Proof, for any number and sizes of functions / variables / couplings (unbounded, linear integer arithmetic), that the Jacobian "
+                      "assembly places every existing partial Jacobian jac[f_a][v_b] at the prefix-sum offsets (off_r(a), off_c(b)), zeros elsewhere and "
+                      "-1 on the diagonal of the residual blocks f_a = v_b, with shape (sum sizes(functions), sum sizes(variables)); that split_jac is "
+                      "the inverse column slicing; that AUTO resolves to DIRECT iff n_variables <= n_functions.",
+        "level_note": "Trusted: pyvc, z3, reals for floats. ASSUMED (not verified): the block-placement contracts of scipy.sparse eye / csr_matrix / bmat "
+                      "(pyvc/plug_np_c07.py), the shapes of the disciplines' partial Jacobians agree with `sizes`.",
+        "design_ref": "DESIGN.md §4 C07",
+        "modules": ["contracts.c07_assembly"],
+        "assumptions": ["scipy.sparse.eye(n) is the n x n identity", "csr_matrix((r, c)) is the r x c zero matrix; csr_matrix(m) has the entries of m",
+                        "bmat(blocks) places block (a, b) at the prefix sums of the block-row heights / block-column widths, zeros where a block is None",
+                        "jac[f][v].shape == (sizes[f], sizes[v]) for the linearized disciplines (precondition)"],
+        "not_covered": ["LINEAR_OPERATOR representation (AssembledJacobianOperator)", "JacobianOperator partial Jacobians", "iterative-solver accuracy, conditioning",
+                        "total_derivatives end to end", "compute_sizes", "residuals", "plot_dependency_jacobian"],
+    },
     "C04": {
         "level_text": "Proof, for every database (any number of points, missing values), tolerance and constraint list, that constraint satisfaction and "
                       "point feasibility follow the property's definitions, that feasible_points lists exactly the feasible recorded points in order "
@@ -228,6 +243,39 @@ PROPS = {
         "not_covered": ["JSONGrammar / PydanticGrammar / HDF5Cache / DisciplineData __getstate__/__setstate__ overrides", "pickle itself, picklability of the "
                         "remaining attribute values", "behavioural equivalence of restored disciplines (execute/linearize agree)"],
     },
+    "C10": {
+        "level_text": "Proof, index-wise and for all dimensions and points, with the operands as uninterpreted maps f, g and Jacobian maps Df, Dg.",
+        "level_note": "Trusted: pyvc, the numpy model (npmodel.py + plug_np_c10.py), reals for floats.",
+        "design_ref": "DESIGN.md §4 C10",
+        "modules": ["contracts.c10_function_algebra"],
+        "assumptions": [],
+        "not_covered": [],
+    },
+}
+
+PROPS["C11"] = {
+    "level_text": "Proof, over an abstract model of the HDF node (groups = maps from names to datasets/sub-groups, datasets = resizable sequences; assumed "
+                  "h5py contracts), of the index bookkeeping of gemseo.algos._hdf_database.",
+    "level_note": "Trusted: pyvc, z3, the abstract h5py model pyvc/plug_hdf.py (assumed contracts A1-A15, each validated natively by tools/validate_h5py_model.py).",
+    "design_ref": "DESIGN.md §4 C11",
+    "modules": ["contracts.c11_hdf_database"],
+    "runtime": "contracts.rt_c11",
+    "assumptions": [],
+    "not_covered": [],
+}
+
+PROPS["C17"] = {
+    "level_text": "Proof (index/variable-mapping part, for every list of names and all variable sizes) that the formulation's index bookkeeping is exact: "
+                  "_get_dv_indices yields adjacent local index ranges (first at 0, end - start = size, next start = previous end), "
+                  "get_x_mask_x_swap_order is the concatenation of the ranges of the masking names within all names, mask_x_swap_order is the gather and "
+                  "unmask_x_swap_order the scatter along it (chunks consumed in the order of all names; zeros or x_full elsewhere); lemmas: for a "
+                  "duplicate-free sub-list in the same order, mask(unmask(y)) = y and unmask(mask(x), x_full=x) = x.",
+    "level_note": "Work in progress (see contracts/c17_formulations.py). Trusted: pyvc, numpy model (npmodel.py + plug_np_c17.py), z3, reals for floats. "
+                  "Not covered: 'optimising any of them reaches the same optimum' (optimiser behaviour), BiLevel.",
+    "design_ref": "DESIGN.md §4 C17",
+    "modules": ["contracts.c17_formulations"],
+    "assumptions": [],
+    "not_covered": ["same optimum across formulations (optimiser behaviour)", "BiLevel", "sparse Jacobians"],
 }
 
 _TODO = "not yet under contract in this build; see DESIGN.md §9 (build order) - no other technique is substituted"
